@@ -5,6 +5,7 @@ package c07
 import (
 	"fmt"
 	"os"
+	"reflect"
 	"runtime"
 	"runtime/debug"
 	"strings"
@@ -202,10 +203,42 @@ func TestC07(t *testing.T) {
 				}
 				if caseNo%2 == 0 {
 					// variant A: Reset puts back the value the variable held before
+					var kept reflect.Value
+					if caseNo%4 == 2 {
+						// ... while a copy of the mocked value taken earlier lives on in another variable
+						kept = reflect.New(reflect.TypeOf(f.Vars[v]).Elem()).Elem()
+						kept.Set(reflect.ValueOf(f.Vars[v]).Elem())
+					}
 					b.Reset()
 					rep.Eval(1)
 					if got := words(f.Vars[v]); got != saved[v] {
 						rep.Violate("C07/reset-did-not-restore", fmt.Sprintf("%s variable %d: words %#x after Reset, %#x before the mock", f.Name, v, got, saved[v]), c)
+					}
+					if kept.IsValid() {
+						b = nil
+						vmon.Churn(2000)
+						fired, _ := w.gc.Collect()
+						if len(fired) > 0 {
+							rep.Violate("C07/stub-target-collected", fmt.Sprintf("%s: after Reset, with a copy of the mocked interface value still held by another variable, the collector freed %v which that copy dispatches to", f.Name, fired), c)
+						} else {
+							// calling through the copy must not take the process down (what a cancelled configuration
+							// answers is not settled by the statement: a panic from goom is fine, a wild jump is not)
+							reflect.ValueOf(f.Vars[v]).Elem().Set(kept)
+							vmon.Churn(2000)
+							runtime.GC()
+							rep.Journal(map[string]interface{}{"part": "copy kept across Reset", "iface": f.Name, "crashkey": "C07/stale-copy-call-crashed"})
+							rep.JournalSync()
+							for m := range f.Methods {
+								f.Call(v, m)
+								rep.Eval(1)
+							}
+							rep.Journal(map[string]interface{}{"part": "after copy kept across Reset"})
+						}
+						for _, o := range objs {
+							w.gc.Disarm(o)
+						}
+						f.ResetVars()
+						rep.Stat("copies_kept_across_reset", 1)
 					}
 					continue
 				}
